@@ -798,9 +798,9 @@ func TestVerifEnumC11(t *testing.T) {
 	schemes := []string{"https", "http", "ftp"}
 	ports := []string{"", ":443", ":80", ":8080"}
 	userinfos := []string{"", "user@"}
-	paths := []string{"", "/", "/a/b", "/a%2Fb", "//x", "/amp/client/0AAAAAAAAAAAA/MS4wCnt9"}
+	paths := []string{"", "/", "/a/b", "/a%2Fb", "//x", "/amp/client/0AAAAAAAAAAAA/MS4wCnt9", "/v%2541/x", "/100%25/y"}
 	if r.Thorough() {
-		paths = append(paths, "/a/", "/a//b/", "/%2E%2E/x", "/a;b=c", "/ä/%C3%A4", "/a%3Fb%23c")
+		paths = append(paths, "/a/", "/a//b/", "/%2E%2E/x", "/a;b=c", "/ä/%C3%A4", "/a%3Fb%23c", "/front%252Fend", "/%25", "/a%2520b")
 	}
 	queries := []string{"", "?q=1&r=2"}
 	fragments := []string{"", "#f"}
